@@ -164,6 +164,97 @@ def published_tables(ctx: Ctx, data):
     return n
 
 
+def native_oracle(ctx: Ctx, data) -> int:
+    """"the defined operators obey their definitions … assertion transparent where not native", with `native` read off the
+    logic's OWN metadata (Meta.native_operators) and the values off its own truth function: an operator the logic does not
+    declare native must be the documented definition over the logic's other tables (Assertion = identity, material
+    conditional = not-or, material biconditional / biconditional = conjunction of the two conditionals).  The Conditional is
+    left out: where it is not native its definition is logic specific (B3E defines it through Assertion)."""
+    import itertools
+    from pytableaux.logics import registry
+    from pytableaux.lang import Operator as O
+    n = 0
+    for lg in sorted(data):
+        if 'fatal' in data[lg]:
+            continue
+        logic = registry(lg)
+        M = logic.Model()
+        vals = list(M.Meta.values)
+        nat = set(logic.Meta.native_operators)
+        f = M.truth_function
+        defs = {O.Assertion: lambda a: a,
+                O.MaterialConditional: lambda a, b: f(O.Disjunction, f(O.Negation, a), b),
+                O.MaterialBiconditional: lambda a, b: f(O.Conjunction, f(O.MaterialConditional, a, b), f(O.MaterialConditional, b, a)),
+                O.Biconditional: lambda a, b: f(O.Conjunction, f(O.Conditional, a, b), f(O.Conditional, b, a))}
+        for op, dfn in defs.items():
+            if op in nat:
+                continue
+            for tup in itertools.product(vals, repeat=op.arity):
+                n += 1
+                got, exp = f(op, *tup), dfn(*tup)
+                if got != exp:
+                    ctx.fail(f'C07:defined-op:{lg}:{op.name}', f'{lg} does not declare {op.name} native (Meta.native_operators), but its value on '
+                             f'{tuple(str(x) for x in tup)} is {got}, the definition over the logic\'s own tables gives {exp}',
+                             dict(logic=lg, operator=op.name, row=[str(x) for x in tup], value=str(got), definition_value=str(exp),
+                                  native_operators=sorted(o.name for o in nat)), found_input=True)
+                    break
+    return n
+
+
+def evaluator_rows(ctx: Ctx, data) -> int:
+    """the value a MODEL of the logic assigns to op(X, Y) is the table entry at the values it assigns to X and Y — for operands
+    that are letters and, in modal logics, possibility / necessity sentences (a modal extension evaluates compounds by the
+    tables of its base logic whatever the operands are)"""
+    import itertools
+    from pytableaux.logics import registry
+    from pytableaux.lang import Atomic, Operated, Operator as O
+    a, b, c, d = (Atomic(i, 0) for i in range(4))
+    n = 0
+    for lg in sorted(data):
+        if 'fatal' in data[lg]:
+            continue
+        logic = registry(lg)
+        modal = bool(logic.Meta.modal)
+        vals = list(logic.Model().Meta.values)
+        shapes = [(a, b)]
+        if modal:
+            shapes += [(Operated(O.Possibility, (c,)), b), (a, Operated(O.Necessity, (d,))), (Operated(O.Possibility, (c,)), Operated(O.Necessity, (d,)))]
+        bad = set()
+        for v1, v2 in itertools.product(vals, repeat=2):
+            m = logic.Model()
+            try:
+                for w in ((0, 1) if modal else (0,)):
+                    kw = dict(world=w) if modal else {}
+                    m.set_atomic_value(a, v1, **kw); m.set_atomic_value(c, v1, **kw)
+                    m.set_atomic_value(b, v2, **kw); m.set_atomic_value(d, v2, **kw)
+                if modal:
+                    m.R.add((0, 1))
+                m.finish()
+            except Exception as e:  # noqa - not this check's subject
+                ctx.notes.append(f'evaluator_rows: {lg}: model not built: {type(e).__name__}'[:120])
+                break
+            f = m.truth_function
+            for X, Y in shapes:
+                for op in O:
+                    if op in (O.Possibility, O.Necessity) or (lg, op.name) in bad:
+                        continue
+                    s = Operated(op, (X,) if op.arity == 1 else (X, Y))
+                    kw = dict(world=0) if modal else {}
+                    try:
+                        got = m.value_of(s, **kw)
+                        exp = f(op, *(m.value_of(x, **kw) for x in s.operands))
+                    except Exception as e:  # noqa
+                        got, exp = f'{type(e).__name__}', None
+                    n += 1
+                    if got != exp:
+                        bad.add((lg, op.name))
+                        ctx.fail(f'C07:evaluator-row:{lg}:{op.name}', f'{lg}: a model gives {s} the value {got}; its operands have the values '
+                                 f'{[str(m.value_of(x, **kw)) for x in s.operands]}, for which the table of {op.name} gives {exp}',
+                                 dict(logic=lg, sentence=str(s), operand_values=[str(v1), str(v2)], value=str(got), table_value=str(exp)),
+                                 found_input=True)
+    return n
+
+
 def run(ctx: Ctx):
     data = logicobl.regenerate()
     cats = dict(tables_spec=h_tables_spec, defined_ops=h_defined, spec_defined=h_simple('spec_defined'),
@@ -178,6 +269,8 @@ def run(ctx: Ctx):
     ctx.add_cov(cache_off_differences=len(off7))
     nrows = base_rows(ctx, data)
     npub = published_tables(ctx, data)
+    npub += native_oracle(ctx, data)
+    npub += evaluator_rows(ctx, data)
     # coverage: how many table rows were compared (measured from the regenerated data)
     rows = 0
     for lg, d in data.items():
